@@ -605,6 +605,10 @@ pub unsafe fn outstation_disable(
     Ok(())
 }
 
+#[cfg(all(test, dnp3_verif))]
+#[path = "/verif/harness_ffi/outstation_priv.rs"]
+pub(crate) mod verif_priv;
+
 unsafe fn convert_udp_config(
     config: ffi::OutstationUdpConfig,
 ) -> Result<OutstationUdpConfig, ffi::ParamError> {
